@@ -7,7 +7,8 @@ From Coq Require Import List Bool NArith ZArith QArith Qcanon.
 From XD Require Import model.Opt proofs.OptBase proofs.OptInner proofs.OptOuter proofs.OptThm proofs.OptHist proofs.OptClipQc.
 Import ListNotations.
 
-(* [within_tol E cf act r]: every target i with act_i = true has |r_i - value_i| < tol_i.
+(* [within_tol E cf act r]: every target i with act_i = true has |transform_i(r_i) - value_i| < tol_i
+   (transform_i = the target's duck-typed `transform` hook, the identity when it has none).
    [evaluating o]: o is tag / clear_log / reload / solve / step without temporary
    enable/disable arguments (the operations that end on a merit evaluation). *)
 
@@ -39,7 +40,7 @@ Theorem C09_undefined_residual_not_accepted : forall (E : env) (cf : cfg (eF E))
   solve E cf fuel n take_best b s = Ok s' -> c_assert cf = true ->
   e_f E (knobs s') = Some r -> nth_error (ta s') i = Some true -> nth_error r i = Some ri ->
   nth_error (c_tval cf) i = Some v -> nth_error (c_tol cf) i = Some t ->
-  e_ltb E (e_abs E (e_sub E ri v)) t = false -> False.
+  e_ltb E (e_abs E (e_sub E (apply_tr E (tr_at E cf i) ri) v)) t = false -> False.
 Proof.
   intros E cf fuel n tb b s s' r i ri v t Hs Ha Hf Hi Hr Hv Ht Hn.
   destruct (solve_success E cf fuel n tb b s s' Hs Ha) as (r' & Hf' & Hw).
@@ -95,7 +96,7 @@ Definition xenv : env :=
         (fun k => Some k) (fun y => fold_right (fun a acc => (a * a + acc)%Qc) 0%Qc y)
         (fun _ _ => Some []) (fun j _ _ _ _ => j) (fun x => x) N.eqb.
 Definition xcfg (target : Qc) : cfg Qc :=
-  mkCfg [1%Qc] [None] [1%Qc] [None] [0%N] [0%N] [target] [1%Qc] [1%Qc] [0%N] 2 true true true [].
+  mkCfg [1%Qc] [None] [1%Qc] [None] [0%N] [0%N] [target] [1%Qc] [1%Qc] [0%N] 2 true true true [] [].
 
 Example C09_success_satisfiable :
   match bind (init xenv (xcfg 0%Qc) [0%Qc] [true]) (fun s0 => solve xenv (xcfg 0%Qc) 50 None true BroOff s0) with
